@@ -64,7 +64,7 @@ class CHECK(ThresholdCheck):
                 probs.append(p)
         view = ctx.get("view")
         if view is None or "rules" not in o:
-            return [p for p in probs if p.kind != "tie-noted"]
+            return tc.cap_when_tie_broken(probs)
         gs, rows = tc.groups_of(case)
         N = case["grid"]
         eo = case["constraint"] == "equalized_odds"
@@ -108,4 +108,4 @@ class CHECK(ThresholdCheck):
         if m1 is not None and abs(float(m1["objective"]) - achieved) > TOL and not parity_broken:
             probs.append(Problem("correspondence", f"achieved objective {achieved:.12g} vs model objective at the "
                                  f"implementation's grid index {float(m1['objective']):.12g}", "C05.objective"))
-        return [p for p in probs if p.kind != "tie-noted"]
+        return tc.cap_when_tie_broken(probs)
